@@ -22,6 +22,107 @@ SELF = P("self")
 WIDTHS = {256: 32, 384: 48, 521: 66}
 
 
+
+def _row_helper_rules(ctx, ev):
+    """Proof rules over the three row helpers (split / format bytes / format row) - the fallback when the pipeline cannot be evaluated."""
+    R, repo = ctx.report, ctx.repo
+    sp = repo.func(CONV, "KeyConverter._split_bytes_per_row")
+    so = [o for o in ev.outcomes(sp) if o.kind == "return"]
+    d = P("data")
+    cols = App("attr:_columns_count", (SELF,))
+    rng = App("call:range", (Const(0), App("len", (d,)), cols))
+    i = App("elem", (rng,))
+    want = App("comp:list", (App("slice", (d, i, App("+", (i, cols)), Const(None))), rng, App("conds", ())))
+    R.check("C15-D2b formatting covers every byte once", len(so) == 1 and so[0].value == want, "row split", mod=sp.module, node=sp.node,
+            function=ctx.fq(sp), expected="[data[i:i+columns] for i in range(0, len(data), columns)]", found=repr(so[0].value)[:240] if so else "?")
+    fr = repo.func(CONV, "KeyConverter._format_row_of_bytes")
+    fro = [o for o in ev.outcomes(fr) if o.kind == "return"]
+
+    def flat_cat(t):
+        if isinstance(t, App) and t.op in ("cat", "+"):
+            out = []
+            for x in t.args:
+                out += flat_cat(x)
+            return out
+        return [t]
+
+    def loop_acc(v):
+        """loopout(_, _, <acc>) -> the pieces appended per iteration (accumulator itself removed), or None"""
+        if not (isinstance(v, App) and v.op == "loopout"):
+            return None
+        parts = flat_cat(v.args[2])
+        if not (parts and isinstance(parts[0], App) and parts[0].op == "loopvar" and parts[0].args[2] == Const("")):
+            return None
+        return parts[1:]
+    def loops_of(o_):
+        """{line: (iterable, name of the iterated variable)} and the loop-carried values of an outcome, for teval"""
+        loops, louts = {}, {}
+        for e_ in o_.effects:
+            if isinstance(e_, App) and e_.op == "eff:loop" and getattr(e_.node, "lineno", None) is not None:
+                loops[e_.node.lineno] = (e_.args[0], e_.node.iter.id if isinstance(e_.node, ast.For) and isinstance(e_.node.iter, ast.Name) else None)
+        for s_ in subterms(o_.value):
+            if isinstance(s_, App) and s_.op == "loopout" and len(s_.args) == 3:
+                louts.setdefault(s_.args[1].v, {})[s_.args[0].v] = s_.args[2]
+        return {"__loops__": loops, "__loopouts__": louts}
+
+    # decided by evaluating the returned term on sample rows (whatever the way the text is accumulated); the shape rule is the fallback
+    ok, found_ = False, "format not recognised"
+    if len(fro) == 1:
+        try:
+            ok = True
+            for sample in (b"", b"\x00", b"\x01\xab\xff", bytes(range(250, 256)) + bytes(range(0, 20))):
+                got = teval(fro[0].value, {"param:data": sample, **loops_of(fro[0])})
+                want_ = "".join("0x%02x, " % b for b in sample)
+                if got != want_:
+                    ok, found_ = False, f"{sample.hex()} -> {got!r}"
+                    break
+        except Unknown:
+            pieces = loop_acc(fro[0].value)
+            loops_ = [e for e in fro[0].effects if isinstance(e, App) and e.op == "eff:loop"]
+            ok = False
+            if pieces is not None and len(loops_) == 1 and loops_[0].args[0] == d and len(pieces) == 3:
+                ok = pieces[0] == Const("0x") and pieces[2] == Const(", ") and isinstance(pieces[1], App) and pieces[1].op == "fmt" \
+                    and pieces[1].args[0] == App("elem", (d,)) and isinstance(pieces[1].args[1], Const) and "02x" in str(pieces[1].args[1].v)
+            found_ = repr(fro[0].value)[:200]
+    R.check("C15-D2b formatting covers every byte once", ok, "each byte of the row, in order, as 0x%02x",
+            mod=fr.module, node=fr.node, function=ctx.fq(fr), expected="'0x%02x, ' for every byte of the row, in order", found=found_)
+    pa = repo.func(CONV, "KeyConverter._prepare_array")
+    pao = [o for o in ev.outcomes(pa) if o.kind == "return"]
+    ok, found_ = False, "shape not recognised"
+    if len(pao) == 1:
+        def fcall(name, *args):
+            return App("call", (Ref("func", repo.func(CONV, "KeyConverter." + name)), SELF) + tuple(args))
+        SPLIT = fcall("_split_bytes_per_row", fcall("_get_public_key_data"))
+        try:
+            ok = True
+            for key in (b"", b"A", b"ABC", b"ABCDEFG"):
+                stand_ins = {"_get_public_key_data": lambda s_: key, "_split_bytes_per_row": lambda s_, d_: [d_[i_:i_ + 3] for i_ in range(0, len(d_), 3)],
+                             "_format_row": lambda s_, r_: "  <" + r_.hex() + ">,"}
+                got = teval(pao[0].value, {"__calls__": stand_ins, **loops_of(pao[0])})
+                rows_ = stand_ins["_split_bytes_per_row"](None, key)
+                want_ = "".join(stand_ins["_format_row"](None, r_) + "\n" for r_ in rows_)[:-2] + "\n"
+                if got != want_:
+                    ok, found_ = False, f"rows {rows_} -> {got!r}"
+                    break
+        except Unknown:
+            ok = False
+            parts = flat_cat(pao[0].value)
+            # <all rows>[:-2] + newline
+            if len(parts) == 2 and parts[1] == Const("\n") and isinstance(parts[0], App) and parts[0].op == "slice" \
+                    and parts[0].args[1:] == (Const(None), Const(-2), Const(None)):
+                pieces = loop_acc(parts[0].args[0])
+                loops_ = [e for e in pao[0].effects if isinstance(e, App) and e.op == "eff:loop"]
+                ok = pieces == [fcall("_format_row", App("elem", (SPLIT,))), Const("\n")] and len(loops_) == 1 and loops_[0].args[0] == SPLIT
+            found_ = repr(pao[0].value)[:240]
+    R.check("C15-D2b formatting covers every byte once", ok, "every row of the public key data is emitted; only the trailing ', ' -> ',\\n' of the last row is removed",
+            mod=pa.module, node=pa.node, function=ctx.fq(pa), expected="for row in split(data): text += format(row) + newline; text = text[:-2] + newline",
+            found=found_)
+    frow = repo.func(CONV, "KeyConverter._format_row")
+    fo = [o for o in ev.outcomes(frow) if o.kind == "return"]
+    R.check("C15-D2b formatting covers every byte once", bool(fo) and "meth:strip" in repr(fo[0].value) and "_indentation" in repr(fo[0].value),
+            "indentation prefixes the row; strip() removes only the trailing blank", mod=frow.module, node=frow.node, function=ctx.fq(frow),
+            expected="self._indentation + row_text.strip()", found=repr(fo[0].value)[:200] if fo else "?")
+
 def run(ctx):
     R = ctx.report
     generic.cli_converters(ctx, "C15-D2c CLI converters", "suit_generator.cmd_convert", 2)
@@ -119,103 +220,42 @@ def convert_rules(ctx):
             "key loaded from the whole binary content of the input file", mod=fi.module, node=fi.node, function=fq,
             expected="load_pem_private_key(open(input_file, 'rb').read(), None)", found=repr(data)[:160])
 
-    R.rule("C15-D2b formatting covers every byte once", 5, "rows = data[i:i+columns] over range(0, len, columns); each byte as 0x%02x; last comma removed; length = sizeof(array)")
-    sp = repo.func(CONV, "KeyConverter._split_bytes_per_row")
-    so = [o for o in ev.outcomes(sp) if o.kind == "return"]
-    d = P("data")
-    cols = App("attr:_columns_count", (SELF,))
-    rng = App("call:range", (Const(0), App("len", (d,)), cols))
-    i = App("elem", (rng,))
-    want = App("comp:list", (App("slice", (d, i, App("+", (i, cols)), Const(None))), rng, App("conds", ())))
-    R.check("C15-D2b formatting covers every byte once", len(so) == 1 and so[0].value == want, "row split", mod=sp.module, node=sp.node,
-            function=ctx.fq(sp), expected="[data[i:i+columns] for i in range(0, len(data), columns)]", found=repr(so[0].value)[:240] if so else "?")
-    fr = repo.func(CONV, "KeyConverter._format_row_of_bytes")
-    fro = [o for o in ev.outcomes(fr) if o.kind == "return"]
-
-    def flat_cat(t):
-        if isinstance(t, App) and t.op in ("cat", "+"):
-            out = []
-            for x in t.args:
-                out += flat_cat(x)
-            return out
-        return [t]
-
-    def loop_acc(v):
-        """loopout(_, _, <acc>) -> the pieces appended per iteration (accumulator itself removed), or None"""
-        if not (isinstance(v, App) and v.op == "loopout"):
-            return None
-        parts = flat_cat(v.args[2])
-        if not (parts and isinstance(parts[0], App) and parts[0].op == "loopvar" and parts[0].args[2] == Const("")):
-            return None
-        return parts[1:]
-    def loops_of(o_):
-        """{line: (iterable, name of the iterated variable)} and the loop-carried values of an outcome, for teval"""
-        loops, louts = {}, {}
-        for e_ in o_.effects:
-            if isinstance(e_, App) and e_.op == "eff:loop" and getattr(e_.node, "lineno", None) is not None:
-                loops[e_.node.lineno] = (e_.args[0], e_.node.iter.id if isinstance(e_.node, ast.For) and isinstance(e_.node.iter, ast.Name) else None)
-        for s_ in subterms(o_.value):
-            if isinstance(s_, App) and s_.op == "loopout" and len(s_.args) == 3:
-                louts.setdefault(s_.args[1].v, {})[s_.args[0].v] = s_.args[2]
-        return {"__loops__": loops, "__loopouts__": louts}
-
-    # decided by evaluating the returned term on sample rows (whatever the way the text is accumulated); the shape rule is the fallback
-    ok, found_ = False, "format not recognised"
-    if len(fro) == 1:
-        try:
-            ok = True
-            for sample in (b"", b"\x00", b"\x01\xab\xff", bytes(range(250, 256)) + bytes(range(0, 20))):
-                got = teval(fro[0].value, {"param:data": sample, **loops_of(fro[0])})
-                want_ = "".join("0x%02x, " % b for b in sample)
-                if got != want_:
-                    ok, found_ = False, f"{sample.hex()} -> {got!r}"
-                    break
-        except Unknown:
-            pieces = loop_acc(fro[0].value)
-            loops_ = [e for e in fro[0].effects if isinstance(e, App) and e.op == "eff:loop"]
-            ok = False
-            if pieces is not None and len(loops_) == 1 and loops_[0].args[0] == d and len(pieces) == 3:
-                ok = pieces[0] == Const("0x") and pieces[2] == Const(", ") and isinstance(pieces[1], App) and pieces[1].op == "fmt" \
-                    and pieces[1].args[0] == App("elem", (d,)) and isinstance(pieces[1].args[1], Const) and "02x" in str(pieces[1].args[1].v)
-            found_ = repr(fro[0].value)[:200]
-    R.check("C15-D2b formatting covers every byte once", ok, "each byte of the row, in order, as 0x%02x",
-            mod=fr.module, node=fr.node, function=ctx.fq(fr), expected="'0x%02x, ' for every byte of the row, in order", found=found_)
+    R.rule("C15-D2b formatting covers every byte once", 2, "the array text of the whole pipeline = every byte once, in order, as 0x%02x, rows of <columns> bytes, no comma after the last; length = sizeof(array)")
+    # decided by evaluating the array text - private helpers of the class followed, the key bytes a stand-in - on sample keys, row
+    # widths and indentations, whatever way rows are split, formatted and joined
     pa = repo.func(CONV, "KeyConverter._prepare_array")
-    pao = [o for o in ev.outcomes(pa) if o.kind == "return"]
-    ok, found_ = False, "shape not recognised"
-    if len(pao) == 1:
-        def fcall(name, *args):
-            return App("call", (Ref("func", repo.func(CONV, "KeyConverter." + name)), SELF) + tuple(args))
-        SPLIT = fcall("_split_bytes_per_row", fcall("_get_public_key_data"))
+    evp = Evaluator(repo, inline_depth=4, inline_filter=lambda f: f.cls is pa.cls and f.name.startswith("_") and not f.name.startswith("__")
+                    and f.name != "_get_public_key_data")
+    ppo = [o for o in evp.outcomes(pa) if o.kind == "return"]
+    pipeline_decided, bad_ = False, None
+    if len(ppo) == 1:
         try:
-            ok = True
-            for key in (b"", b"A", b"ABC", b"ABCDEFG"):
-                stand_ins = {"_get_public_key_data": lambda s_: key, "_split_bytes_per_row": lambda s_, d_: [d_[i_:i_ + 3] for i_ in range(0, len(d_), 3)],
-                             "_format_row": lambda s_, r_: "  <" + r_.hex() + ">,"}
-                got = teval(pao[0].value, {"__calls__": stand_ins, **loops_of(pao[0])})
-                rows_ = stand_ins["_split_bytes_per_row"](None, key)
-                want_ = "".join(stand_ins["_format_row"](None, r_) + "\n" for r_ in rows_)[:-2] + "\n"
-                if got != want_:
-                    ok, found_ = False, f"rows {rows_} -> {got!r}"
-                    break
+            n_ = 0
+            for key in (b"", b"A", b"ABC", b"ABCDEFG", bytes(range(250, 256)) + bytes(range(0, 27))):
+                for cols_ in (1, 3, 8):
+                    for ind_ in ("", "    "):
+                        env = {"__calls__": {"_get_public_key_data": lambda s_, k_=key: k_}, App("attr:_columns_count", (SELF,)): cols_,
+                               App("attr:_indentation", (SELF,)): ind_, **generic.loops_env(ppo[0])}
+                        got = teval(ppo[0].value, env)
+                        rows_ = [key[i_:i_ + cols_] for i_ in range(0, len(key), cols_)]
+                        want_ = ",\n".join(ind_ + ", ".join("0x%02x" % b_ for b_ in r_) for r_ in rows_) + "\n"
+                        n_ += 1
+                        if got != want_ and bad_ is None:
+                            bad_ = f"key {key.hex()} columns {cols_}: {got!r}"
+            pipeline_decided = True
         except Unknown:
-            ok = False
-            parts = flat_cat(pao[0].value)
-            # <all rows>[:-2] + newline
-            if len(parts) == 2 and parts[1] == Const("\n") and isinstance(parts[0], App) and parts[0].op == "slice" \
-                    and parts[0].args[1:] == (Const(None), Const(-2), Const(None)):
-                pieces = loop_acc(parts[0].args[0])
-                loops_ = [e for e in pao[0].effects if isinstance(e, App) and e.op == "eff:loop"]
-                ok = pieces == [fcall("_format_row", App("elem", (SPLIT,))), Const("\n")] and len(loops_) == 1 and loops_[0].args[0] == SPLIT
-            found_ = repr(pao[0].value)[:240]
-    R.check("C15-D2b formatting covers every byte once", ok, "every row of the public key data is emitted; only the trailing ', ' -> ',\\n' of the last row is removed",
-            mod=pa.module, node=pa.node, function=ctx.fq(pa), expected="for row in split(data): text += format(row) + newline; text = text[:-2] + newline",
-            found=found_)
-    frow = repo.func(CONV, "KeyConverter._format_row")
-    fo = [o for o in ev.outcomes(frow) if o.kind == "return"]
-    R.check("C15-D2b formatting covers every byte once", bool(fo) and "meth:strip" in repr(fo[0].value) and "_indentation" in repr(fo[0].value),
-            "indentation prefixes the row; strip() removes only the trailing blank", mod=frow.module, node=frow.node, function=ctx.fq(frow),
-            expected="self._indentation + row_text.strip()", found=repr(fo[0].value)[:200] if fo else "?")
+            pipeline_decided = False
+    if pipeline_decided:
+        R.check("C15-D2b formatting covers every byte once", bad_ is None, f"array text of {n_} sample keys / widths / indentations",
+                mod=pa.module, node=pa.node, function=ctx.fq(pa), expected="rows of <columns> bytes '0x%02x, ', indentation in front, ',\\n' between rows, '\\n' at the end",
+                found=bad_ or "")
+    helpers_present = all(repo.find_func(CONV, "KeyConverter." + h_) for h_ in ("_split_bytes_per_row", "_format_row_of_bytes", "_format_row"))
+    if not pipeline_decided and not helpers_present:
+        raise AnalysisError(f"{ctx.fq(pa)}: the array text can neither be evaluated on samples nor taken apart into the known helpers")
+    if helpers_present:
+        import contextlib
+        with (R.lenient("decided by evaluating the array text on sample keys (C15-D2b)") if pipeline_decided else contextlib.nullcontext()):
+            _row_helper_rules(ctx, ev)
     lv = repo.func(CONV, "KeyConverter._prepare_length_variable")
     av = repo.func(CONV, "KeyConverter._prepare_array_variable")
     NAME = App("attr:_array_name", (SELF,))
